@@ -3,7 +3,7 @@ EXTENDS Exec
 MC_TabCols == [t1 |-> <<"g", "o", "x">>, t2 |-> <<"g", "y">>]
 MC_ColVals == [g |-> {NULL, 0, 1}, o |-> {0, 1, 2}, x |-> {NULL, 0, 1, 2}, y |-> {NULL, 1}]
 MC_Kind == [g |-> "s", h |-> "s", h2 |-> "s", src |-> "s",
-            p |-> "b", q |-> "b", o |-> "n", k |-> "n", x |-> "n", y |-> "n", z |-> "n", w |-> "n", v |-> "n", m |-> "q", x2 |-> "n", nosuch |-> "n"]
+            p |-> "b", q |-> "b", o |-> "n", k |-> "n", x |-> "n", y |-> "n", z |-> "n", w |-> "n", v |-> "n", m |-> "q", t |-> "s", x2 |-> "n", nosuch |-> "n"]
 MCB_TabCols == [t1 |-> <<"o", "x", "y">>]
 MCB_ColVals == [o |-> {0, 1}, x |-> {NULL, 1}, y |-> {NULL, 2}]
 MCD_ColVals == [o |-> {0, 1}, x |-> {1}, y |-> {NULL, 2}]
@@ -12,6 +12,8 @@ MC5_TabCols == [t1 |-> <<"x", "y">>]
 MC5_ColVals == [x |-> {NULL, 0 - 2, 0, 1, 3}, y |-> {NULL, 0 - 1, 0, 2}]
 MC5I_ColVals == [x |-> {NULL, PINF, NINF, 1}, y |-> {NULL, 0, 2}]
 MCB2_TabCols == [t1 |-> <<"o", "x", "y">>, t2 |-> <<"o", "x", "y">>]
+MC5S_TabCols == [t1 |-> <<"g", "h">>]
+MC5S_ColVals == [g |-> {NULL, 0, 1}, h |-> {NULL, 0, 1, 2}]
 MC1_TabCols == [t1 |-> <<"g", "o", "x">>]
 MCJ_TabCols == [t1 |-> <<"g", "x">>, t2 |-> <<"g", "x", "y">>]
 MCJ_ColVals == [g |-> {NULL, 0, 1}, x |-> {NULL, 1}, y |-> {NULL, 1}]
@@ -26,7 +28,8 @@ NoBackends == {}
 NoDevOf == [b \in {} |-> {}]
 AllBackends == {"pandas", "sqlite", "polars", "pg"}
 AllDevOf == [b \in AllBackends |->
-               CASE b = "pandas" -> {"pandas_drops_null_groups", "pandas_cum_null_hole", "null_cmp_false", "pandas_null_keys_match"}
+               CASE b = "pandas" -> {"pandas_drops_null_groups", "pandas_cum_null_hole", "null_cmp_false", "pandas_null_keys_match",
+                                    "pandas_concat_null_as_text"}
                  [] b = "sqlite" -> {"sql_maxmin_swapped", "sqlite_full_join_emulation"}
                  [] b = "pg" -> {"sql_maxmin_swapped"}
                  [] b = "polars" -> {"polars_full_join_right_key_lost", "polars_maxmin_ignore_null", "polars_nunique_counts_null"}]
